@@ -383,6 +383,26 @@ type DIDAnswer struct {
 	Err         bool   `json:"err,omitempty"`
 	NoStateInfo bool   `json:"no_state_info,omitempty"` // document without Iden3StateInfo2023
 	Published   *bool  `json:"published,omitempty"`
+	// VMs, when set, lists the document's verification methods explicitly (in order);
+	// otherwise the document is [another key, state info(Published)] or [another key].
+	VMs []VMJ `json:"vms,omitempty"`
+}
+
+// VMJ is one verification method of a scripted DID document.
+type VMJ struct {
+	StateInfo bool  `json:"state_info"`          // type Iden3StateInfo2023 (else a key method)
+	Published *bool `json:"published,omitempty"` // its identity state's `published` member
+}
+
+// Methods returns the verification methods of the scripted document, in order.
+func (a DIDAnswer) Methods() []VMJ {
+	if a.VMs != nil {
+		return a.VMs
+	}
+	if a.NoStateInfo {
+		return []VMJ{{}}
+	}
+	return []VMJ{{}, {StateInfo: true, Published: a.Published}}
 }
 
 // StubDIDResolver answers only what its script says; everything else is an error.
@@ -408,14 +428,24 @@ func (r *StubDIDResolver) Resolve(_ context.Context, did *w3c.DID) (verifiable.D
 				return verifiable.DIDDocument{}, fmt.Errorf("stub resolver: scripted failure")
 			}
 			doc := verifiable.DIDDocument{Context: "https://www.w3.org/ns/did/v1", ID: base}
-			doc.VerificationMethod = append(doc.VerificationMethod,
-				verifiable.CommonVerificationMethod{ID: base + "#key-1", Type: "EcdsaSecp256k1RecoveryMethod2020", Controller: base})
-			if !a.NoStateInfo {
-				vm := verifiable.CommonVerificationMethod{ID: base + "#stateInfo", Type: "Iden3StateInfo2023", Controller: base}
-				vm.IdentityState.Published = a.Published
+			for i, m := range a.Methods() {
+				vm := verifiable.CommonVerificationMethod{ID: fmt.Sprintf("%s#vm-%d", base, i), Type: "EcdsaSecp256k1RecoveryMethod2020", Controller: base}
+				if m.StateInfo {
+					vm.Type = "Iden3StateInfo2023"
+					vm.IdentityState.Published = m.Published
+				}
 				doc.VerificationMethod = append(doc.VerificationMethod, vm)
 			}
-			return doc, nil
+			// through JSON, as a universal resolver's answer arrives
+			b, err := json.Marshal(doc)
+			if err != nil {
+				return verifiable.DIDDocument{}, err
+			}
+			var out verifiable.DIDDocument
+			if err := json.Unmarshal(b, &out); err != nil {
+				return verifiable.DIDDocument{}, err
+			}
+			return out, nil
 		}
 	}
 	return verifiable.DIDDocument{}, fmt.Errorf("stub resolver: unknown %s state %s", base, st)
